@@ -7,7 +7,12 @@
 (*           plaintext, in bytes or in symbolic units), mutated (the document *)
 (*           differs from what Encrypt produced or another key is unwrapped), *)
 (*           headerOnly (the document of a NON-EMPTY message was reduced to   *)
-(*           three header lines with no payload byte: every segment cut off)  *)
+(*           three header lines with no payload byte: every segment cut off), *)
+(*           forged (the document was not produced by Encrypt at all: the     *)
+(*           adversary built header MAC and segments under a key of his own   *)
+(*           choosing - the all-zero key Decrypt falls back to when the       *)
+(*           unwrap callback fails - and the callback does not return that    *)
+(*           document's key as a successful result)                           *)
 (*  srcerr   the source reader returned a non-EOF error                       *)
 (*  decrypt  err: Decrypt itself returned an error (no stream)                *)
 (*  release  n, prefixOK: the consumer read n bytes; prefixOK <=> everything  *)
@@ -26,6 +31,9 @@
 (*      plaintext (a shortened or altered message never ends cleanly)         *)
 (*  L3  a source-reader error never ends in a clean EOF                       *)
 (*  L4  nothing is released when Decrypt returned an error; the stream ends   *)
+(*  L6  a forged document releases nothing and never ends in a clean EOF:     *)
+(*      the unwrapped key is not the document's key, whatever Decrypt         *)
+(*      substitutes internally when the unwrap callback fails                 *)
 (*  L5  position binding over the whole 32-bit counter range: a segment opens *)
 (*      iff (N', last') = (N, last); a rejected segment releases nothing      *)
 (*                                                                            *)
@@ -43,15 +51,17 @@ IsBad(c) == c.bad
 HeaderOnlyWhy == "HeaderOnlyTruncation"
 
 CReset(e) == [bad |-> FALSE, why |-> "", o |-> e, srcErr |-> FALSE, decErr |-> FALSE, released |-> 0]
-Dummy == CReset([class |-> "", len |-> 0, mutated |-> FALSE, headerOnly |-> FALSE])
+Dummy == CReset([class |-> "", len |-> 0, mutated |-> FALSE, headerOnly |-> FALSE, forged |-> FALSE])
 
 CRelease(c, e) ==
-  IF c.decErr /\ e.n > 0 THEN Bad("bytes released although Decrypt failed")
+  IF c.o.forged /\ e.n > 0 THEN Bad("forged document released bytes")
+  ELSE IF c.decErr /\ e.n > 0 THEN Bad("bytes released although Decrypt failed")
   ELSE IF ~e.prefixOK THEN Bad("released bytes are not a prefix of the plaintext")
   ELSE [c EXCEPT !.released = @ + e.n]
 
 CEnd(c, e) ==
   IF e.term = "hang" THEN Bad("stream never terminated")
+  ELSE IF e.term = "eof" /\ c.o.forged THEN Bad("forged document ended in a clean EOF")
   ELSE IF e.term = "eof" /\ c.srcErr THEN Bad("source error ended in a clean EOF")
   ELSE IF e.term = "eof" /\ ~e.equal THEN
          IF c.o.headerOnly /\ e.released = 0 THEN Bad(HeaderOnlyWhy)
